@@ -182,6 +182,24 @@ def shard_exhaustive(ctx, shard):
                             res.violations.append(v.record())
                         continue
                     res.case(case['src'], True, sample=case['src'][:120] + '...', classes=['long-body:%s' % cx[0], 'long-body-scale:%d' % scale])
+    # inside a definition a lone \\begin / \\end is an ordinary command - in brace AND bracket arguments of commands there
+    cxd = [c for c in CONTEXTS if c[0] == 'definition'][0]
+    lone = ['\\begin{center}', '\\end{center}', '\\begin{e}\\y', 'a\\end{itemize}', '\\begin{equation}']
+    for k1, b1 in enumerate(lone):
+        for shape in ([('[', b1), ('{', 'x')], [('{', b1)], [('[', 'o'), ('[', b1), ('{', 'x')], [('{', 'x'), ('{', b1)], [('[', b1)]):
+            for sep in ('', ' '):
+                count += 1
+                if count % nshard != idx:
+                    continue
+                total += 1
+                try:
+                    case = check_case('tgt', shape, [sep] * len(shape), ' t', cxd, 'definition-lone-delimiter')
+                except H.Violation as v:
+                    if v.kind not in seen:
+                        seen.add(v.kind)
+                        res.violations.append(v.record())
+                    continue
+                res.case(case['src'], True, sample=case['src'], classes=['definition-lone-delimiter'])
     # long runs: every count of bracket / brace groups up to 12 (no arity folklore in the parser)
     for cx in CONTEXTS:
         for nb in range(0, 13):
@@ -263,7 +281,7 @@ def shard_random(ctx, shard):
 
 
 BR_CONTEXTS = [c for c in CONTEXTS]
-BR_TEXTS = ['[', ']', '[ a', 'a ]', '] [', '[[', ']]', 'a [ b ] c [', '( ]', '[)', 'x]y[z']
+BR_TEXTS = ['[', ']', '[ a', 'a ]', '] [', '[[', ']]', 'a [ b ] c [', '( ]', '[)', 'x]y[z', '[2pt]', '[-1.5em] x', '[ 3 mm ]', '[.5ex][1]']
 
 
 def shard_brackets(ctx, shard):
@@ -272,7 +290,7 @@ def shard_brackets(ctx, shard):
     from hypothesis import strategies as st
     res = H.Result()
     strat = st.tuples(st.sampled_from(BR_CONTEXTS), st.sampled_from(BR_TEXTS),
-                      st.sampled_from(['', 'a ', '. ', '\\\\ ', '%c\n', '$m$ ', '{g} ', '\\z{a}. ']))
+                      st.sampled_from(['', 'a ', '. ', '\\\\ ', '%c\n', '$m$ ', '{g} ', '\\z{a}. ', '\\\\', 'a & b \\\\', '\\\\*']))
 
     def prop(c):
         cx, text, lead = c
@@ -287,6 +305,11 @@ def shard_brackets(ctx, shard):
         t = str(o[1])
         if t != src:
             raise H.Violation('C09:bracket-text:roundtrip', case, 'serialises to %r' % t[:300])
+        # ... and it is ordinary text: every bracket character written here is a character of a text leaf
+        tv = ''.join(str(x) for x in o[1].text)
+        if tv.count('[') != text.count('[') or tv.count(']') != text.count(']'):
+            raise H.Violation('C09:bracket-text:not-text', case, 'the text leaves hold %d [ and %d ], written were %d and %d' % (
+                tv.count('['), tv.count(']'), text.count('['), text.count(']')))
         for nm in ('o', 'z', 'w'):
             for nd in o[1].find_all(nm):
                 if any(('[' in str(a) or ']' in str(a)) and str(a) not in ('{a}',) and nm != 'o' for a in nd.args):
